@@ -57,7 +57,7 @@ func (t *tr) errMatch(s *ast.AssignStmt, pd *pending, rest []ast.Stmt, k func() 
 	m = t.mark()
 	for _, l := range s.Lhs[:n-1] {
 		if id, ok := l.(*ast.Ident); ok && id.Name != "_" {
-			t.setVar(id.Name, &val{t: tErr, isNil: true}, define)
+			t.setVar(id.Name, &val{t: tErr, isNil: true, poison: true}, define)
 		}
 	}
 	t.storeVar(errId.Name, &val{t: tErr, errK: 2}, define)
